@@ -7,36 +7,21 @@
   The only hypothesis is that the heap has its NULL block (`0 < hp.size`; otherwise `Heap.alloc` would hand out NULL).
 -/
 import GoldilocksVerif.Lemmas.HeapSafeTac
+import GoldilocksVerif.Lemmas.BridgeNttTac
 import GoldilocksVerif.Gen.NttGen
 
 namespace GoldilocksVerif.HeapSafe
-open GoldilocksVerif Gen.NttGen
+open GoldilocksVerif Gen.NttGen GoldilocksVerif.BridgeNtt
+
+/-- `OInv (Heap.Same s) (<lifted loop body> … s)`: the body of a counted loop gives back a heap of the same shape.  Proved
+    by unfolding whatever the body is (no statement names a lifted loop body or its parameter list: a hoisted
+    sub-expression or a reordered local changes that list) -/
+macro "loop_same" : tactic => `(tactic| (intros; unfold_loops; (repeat heap_step); done))
+
+-- lowest priority alternative of `same_lemmas`: a lifted loop body is unfolded in place
+macro_rules | `(tactic| same_lemmas) => `(tactic| loop_same)
 
 /-! ### reversePermutation -/
-
-theorem rp_loop1_same (dst src : Ptr) (oc nc nca : BitVec 64) (ds : BitVec 32) (i : Nat) (hp : Heap) :
-    OInv (Heap.Same hp) (NTT_reversePermutation_loop1 dst src oc nc nca ds i hp) := by
-  unfold NTT_reversePermutation_loop1
-  repeat heap_step
-macro_rules | `(tactic| same_lemmas) => `(tactic| apply rp_loop1_same)
-
-theorem rp_loop2_same (dst src : Ptr) (oc nc nca : BitVec 64) (ds : BitVec 32) (e : BitVec 64) (i : Nat) (hp : Heap) :
-    OInv (Heap.Same hp) (NTT_reversePermutation_loop2 dst src oc nc nca ds e i hp) := by
-  unfold NTT_reversePermutation_loop2
-  repeat heap_step
-macro_rules | `(tactic| same_lemmas) => `(tactic| apply rp_loop2_same)
-
-theorem rp_loop3_same (dst src : Ptr) (nc : BitVec 64) (ds : BitVec 32) (i : Nat) (hp : Heap) (hs : 0 < hp.size) :
-    OInv (Heap.Same hp) (NTT_reversePermutation_loop3 dst src nc ds i hp) := by
-  unfold NTT_reversePermutation_loop3
-  repeat heap_step
-macro_rules | `(tactic| same_lemmas) => `(tactic| (apply rp_loop3_same; heap_pos))
-
-theorem rp_loop4_same (dst src : Ptr) (nc : BitVec 64) (ds : BitVec 32) (nr : BitVec 64) (i : Nat) (hp : Heap) (hs : 0 < hp.size) :
-    OInv (Heap.Same hp) (NTT_reversePermutation_loop4 dst src nc ds nr i hp) := by
-  unfold NTT_reversePermutation_loop4
-  repeat heap_step
-macro_rules | `(tactic| same_lemmas) => `(tactic| (apply rp_loop4_same; heap_pos))
 
 theorem reversePermutation_same (fuel : Nat) (hp : Heap) (self : NTT_Goldilocks) (dst src : Ptr) (size oc nc nca : BitVec 64)
     (hs : 0 < hp.size) : OInv (Heap.Same hp) (NTT_reversePermutation fuel hp self dst src size oc nc nca) := by
@@ -46,11 +31,6 @@ macro_rules | `(tactic| same_lemmas) => `(tactic| (apply reversePermutation_same
 
 /-! ### parcpy -/
 
-theorem parcpy_loop1_same (dst src : Ptr) (size ct : BitVec 64) (h0 : Heap) (st : Heap × BitVec 64) (h : Heap.Same h0 st.1) :
-    OInv (fun bs => Heap.Same h0 bs.2.1) (parcpy_loop1 dst src size ct st) := by
-  unfold parcpy_loop1
-  repeat heap_step
-
 theorem parcpy_same (fuel : Nat) (hp : Heap) (dst src : Ptr) (size : BitVec 64) (nt : Int) :
     OInv (Heap.Same hp) (parcpy fuel hp dst src size nt) := by
   unfold parcpy
@@ -58,77 +38,13 @@ theorem parcpy_same (fuel : Nat) (hp : Heap) (dst src : Ptr) (size : BitVec 64) 
   oinv_bind (fun (y : Heap × BitVec 64) => Heap.Same hp y.1)
   · heap_step
     · exact Heap.Same.refl _
-    · intro s hs; exact parcpy_loop1_same _ _ _ _ hp s hs
+    · intro s hs
+      unfold_loops
+      repeat heap_step
   · repeat heap_step
 macro_rules | `(tactic| same_lemmas) => `(tactic| apply parcpy_same)
 
 /-! ### NTT_iters -/
-
-theorem iters_loop1_same (a : Ptr) (o1 o2 w : BitVec 64) (k : Nat) (hp : Heap) :
-    OInv (Heap.Same hp) (NTT_NTT_iters_loop1 a o1 o2 w k hp) := by
-  unfold NTT_NTT_iters_loop1
-  repeat heap_step
-macro_rules | `(tactic| same_lemmas) => `(tactic| apply iters_loop1_same)
-
-theorem iters_loop2_same (ncols : BitVec 64) (self : NTT_Goldilocks) (a : Ptr) (s rs re rb rm bS : BitVec 64) (b si : Nat)
-    (mdiv2 mdiv2i mi : BitVec 64) (i : Nat) (hp : Heap) :
-    OInv (Heap.Same hp) (NTT_NTT_iters_loop2 ncols self a s rs re rb rm bS b si mdiv2 mdiv2i mi i hp) := by
-  unfold NTT_NTT_iters_loop2
-  repeat heap_step
-macro_rules | `(tactic| same_lemmas) => `(tactic| apply iters_loop2_same)
-
-theorem iters_loop3_same (ncols : BitVec 64) (self : NTT_Goldilocks) (a : Ptr) (s rs re rb rm bS : BitVec 64) (b si : Nat) (hp : Heap) :
-    OInv (Heap.Same hp) (NTT_NTT_iters_loop3 ncols self a s rs re rb rm bS b si hp) := by
-  unfold NTT_NTT_iters_loop3
-  repeat heap_step
-macro_rules | `(tactic| same_lemmas) => `(tactic| apply iters_loop3_same)
-
-theorem iters_loop4_same (ncols : BitVec 64) (a a2 : Ptr) (bS nB : BitVec 64) (b x : Nat) (hp : Heap) :
-    OInv (Heap.Same hp) (NTT_NTT_iters_loop4 ncols a a2 bS nB b x hp) := by
-  unfold NTT_NTT_iters_loop4
-  repeat heap_step
-macro_rules | `(tactic| same_lemmas) => `(tactic| apply iters_loop4_same)
-
-theorem iters_loop5_same (self : NTT_Goldilocks) (a a2 : Ptr) (dsty od os : BitVec 64) (k : Nat) (hp : Heap) :
-    OInv (Heap.Same hp) (NTT_NTT_iters_loop5 self a a2 dsty od os k hp) := by
-  unfold NTT_NTT_iters_loop5
-  repeat heap_step
-macro_rules | `(tactic| same_lemmas) => `(tactic| apply iters_loop5_same)
-
-theorem iters_loop6_same (size ncols : BitVec 64) (self : NTT_Goldilocks) (a a2 : Ptr) (bS nB : BitVec 64) (b x : Nat) (hp : Heap) :
-    OInv (Heap.Same hp) (NTT_NTT_iters_loop6 size ncols self a a2 bS nB b x hp) := by
-  unfold NTT_NTT_iters_loop6
-  repeat heap_step
-macro_rules | `(tactic| same_lemmas) => `(tactic| apply iters_loop6_same)
-
-theorem iters_loop7_same (self : NTT_Goldilocks) (a a2 : Ptr) (dp od os : BitVec 64) (k : Nat) (hp : Heap) :
-    OInv (Heap.Same hp) (NTT_NTT_iters_loop7 self a a2 dp od os k hp) := by
-  unfold NTT_NTT_iters_loop7
-  repeat heap_step
-macro_rules | `(tactic| same_lemmas) => `(tactic| apply iters_loop7_same)
-
-theorem iters_loop8_same (size ncols : BitVec 64) (self : NTT_Goldilocks) (a a2 : Ptr) (dp bS nB : BitVec 64) (b x : Nat) (hp : Heap) :
-    OInv (Heap.Same hp) (NTT_NTT_iters_loop8 size ncols self a a2 dp bS nB b x hp) := by
-  unfold NTT_NTT_iters_loop8
-  repeat heap_step
-macro_rules | `(tactic| same_lemmas) => `(tactic| apply iters_loop8_same)
-
-theorem iters_loop9_same (size ncols : BitVec 64) (inverse extend : Bool) (self : NTT_Goldilocks) (a a2 : Ptr)
-    (dp mbp s sInc rs re rb rm bS nB : BitVec 64) (b : Nat) (hp : Heap) :
-    OInv (Heap.Same hp) (NTT_NTT_iters_loop9 size ncols inverse extend self a a2 dp mbp s sInc rs re rb rm bS nB b hp) := by
-  unfold NTT_NTT_iters_loop9
-  repeat heap_step
-macro_rules | `(tactic| same_lemmas) => `(tactic| apply iters_loop9_same)
-
-theorem iters_loop10_same (size ncols : BitVec 64) (inverse extend : Bool) (self : NTT_Goldilocks) (dp res : BitVec 64) (h0 : Heap)
-    (st : BitVec 64 × Heap × Ptr × Ptr × Ptr × BitVec 64 × BitVec 64) (h : Heap.Same h0 st.2.1) :
-    OInv (fun bs => Heap.Same h0 bs.2.2.1) (NTT_NTT_iters_loop10 size ncols inverse extend self dp res st) := by
-  unfold NTT_NTT_iters_loop10
-  repeat heap_step
-  · oinv_bind_same h0
-    · repeat heap_step
-    · repeat heap_step
-  · repeat heap_step
 
 theorem NTT_iters_same (fuel : Nat) (hp : Heap) (self : NTT_Goldilocks) (dst src : Ptr) (size oc nc nca nphase : BitVec 64) (aux : Ptr)
     (inverse extend : Bool) (hs : 0 < hp.size) :
@@ -138,62 +54,70 @@ theorem NTT_iters_same (fuel : Nat) (hp : Heap) (self : NTT_Goldilocks) (dst src
   oinv_bind (fun (y : BitVec 64 × Heap × Ptr × Ptr × Ptr × BitVec 64 × BitVec 64) => Heap.Same hp y.2.1)
   · heap_step
     · assumption
-    · intro s hs; exact iters_loop10_same _ _ _ _ _ _ _ hp s hs
+    · intro s hs
+      unfold_loops
+      repeat heap_step
+      · oinv_bind_same hp
+        · repeat heap_step
+        · repeat heap_step
+      · repeat heap_step
   all_goals repeat heap_step
 macro_rules | `(tactic| same_lemmas) => `(tactic| (apply NTT_iters_same; heap_pos))
 
 /-! ### NTT, INTT -/
 
-theorem NTT_loop1_same (dst : Ptr) (ncols oc : BitVec 64) (dst_ : Ptr) (an : BitVec 64) (ie : Nat) (hp : Heap) :
-    OInv (Heap.Same hp) (NTT_NTT_loop1 dst ncols oc dst_ an ie hp) := by
-  unfold NTT_NTT_loop1
+/-- the body of the block loop of `NTT` keeps the shape of `h0` (first component of its state) -/
+macro "ntt_block_same " h0:term : tactic => `(tactic| (
+  unfold_loops
   repeat heap_step
-macro_rules | `(tactic| same_lemmas) => `(tactic| apply NTT_loop1_same)
+  oinv_bind_same $h0
+  · repeat heap_step
+  · repeat heap_step
+    oinv_bind_same $h0
+    · repeat heap_step
+    · repeat heap_step))
 
+/-- by-name form for the block loop body of `NTT` (used by the in-bounds proofs of `NTT`) -/
 theorem NTT_loop2_same (fuel : Nat) (dst src : Ptr) (size ncols nphase nblock : BitVec 64) (inverse extend : Bool) (self : NTT_Goldilocks)
     (ncb ncr : BitVec 64) (dst_ aux : Ptr) (ib : Nat) (h0 : Heap) (st : Heap × BitVec 64) (hs : 0 < h0.size) (h : Heap.Same h0 st.1) :
     OInv (fun r => Heap.Same h0 r.1) (NTT_NTT_loop2 fuel dst src size ncols nphase nblock inverse extend self ncb ncr dst_ aux ib st) := by
-  unfold NTT_NTT_loop2
-  repeat heap_step
-  oinv_bind_same h0
-  · repeat heap_step
-  · repeat heap_step
-    oinv_bind_same h0
-    · repeat heap_step
-    · repeat heap_step
+  ntt_block_same h0
+
+/-- the same with the parameters of the lifted body left to unification -/
+theorem NTT_loop2_same' {fuel : Nat} {dst src : Ptr} {size ncols nphase nblock : BitVec 64} {inverse extend : Bool}
+    {self : NTT_Goldilocks} {ncb ncr : BitVec 64} {dst_ aux : Ptr} {ib : Nat} {h0 : Heap} (st : Heap × BitVec 64)
+    (hs : 0 < h0.size) (h : Heap.Same h0 st.1) :
+    OInv (fun r => Heap.Same h0 r.1) (NTT_NTT_loop2 fuel dst src size ncols nphase nblock inverse extend self ncb ncr dst_ aux ib st) :=
+  NTT_loop2_same fuel dst src size ncols nphase nblock inverse extend self ncb ncr dst_ aux ib h0 st hs h
+
+/-- the block loop of `NTT`, started on `(h0, offset)`: every state has a heap of the shape of `h0` -/
+theorem block_loop_same (body : Nat → Heap × BitVec 64 → Option (Heap × BitVec 64)) (h0 : Heap) (oc : BitVec 64) (lo hi : Nat)
+    (hbody : ∀ i (st : Heap × BitVec 64), Heap.Same h0 st.1 → OInv (fun r => Heap.Same h0 r.1) (body i st)) :
+    OInv (fun y => Heap.Same h0 y.1) (Loop.rangeM lo hi 1 (h0, oc) body) :=
+  OInv.rangeM (P := fun y => Heap.Same h0 y.1) lo hi 1 (h0, oc) body (Heap.Same.refl _) hbody
 
 theorem NTT_same (fuel : Nat) (hp : Heap) (self : NTT_Goldilocks) (dst src : Ptr) (size ncols : BitVec 64) (buffer : Ptr)
     (nphase nblock : BitVec 64) (inverse extend : Bool) (hs : 0 < hp.size) :
     OInv (Heap.Same hp) (NTT_NTT fuel hp self dst src size ncols buffer nphase nblock inverse extend) := by
   unfold NTT_NTT
   repeat heap_step
-  rename_i nb1 nb oc0 ncb ncr nca1 nca
-  by_cases hb : (buffer == Ptr.null) = true <;> by_cases hn : decide (nb > 1#64) = true
-  · simp only [if_pos hb, if_pos hn]
-    oinv_bind (fun (y : Heap × BitVec 64) => Heap.Same ((hp.alloc ((8#64 * size * nca).toNat / 8)).fst.alloc ((8#64 * size * nca).toNat / 8)).fst y.1)
-    · heap_step
-      · exact Heap.Same.refl _
-      · intro i s hs'; exact NTT_loop2_same _ _ _ _ _ _ _ _ _ _ _ _ _ _ _ _ s (by heap_pos) hs'
-    · repeat heap_step
-  · simp only [if_pos hb, if_neg hn]
-    oinv_bind (fun (y : Heap × BitVec 64) => Heap.Same (hp.alloc ((8#64 * size * nca).toNat / 8)).fst y.1)
-    · heap_step
-      · exact Heap.Same.refl _
-      · intro i s hs'; exact NTT_loop2_same _ _ _ _ _ _ _ _ _ _ _ _ _ _ _ _ s (by heap_pos) hs'
-    · repeat heap_step
-  · simp only [if_neg hb, if_pos hn]
-    oinv_bind (fun (y : Heap × BitVec 64) => Heap.Same (hp.alloc ((8#64 * size * nca).toNat / 8)).fst y.1)
-    · heap_step
-      · exact Heap.Same.refl _
-      · intro i s hs'; exact NTT_loop2_same _ _ _ _ _ _ _ _ _ _ _ _ _ _ _ _ s (by heap_pos) hs'
-    · repeat heap_step
-  · simp only [if_neg hb, if_neg hn]
-    oinv_bind (fun (y : Heap × BitVec 64) => Heap.Same hp y.1)
-    · heap_step
-      · exact Heap.Same.refl _
-      · intro i s hs'; exact NTT_loop2_same _ _ _ _ _ _ _ _ _ _ _ _ _ _ _ _ s (by heap_pos) hs'
-    · repeat heap_step
-  all_goals repeat heap_step
+  -- the two allocations (scratch `aux` when no buffer is given, `dst_` for more than one block) are case-split on their
+  -- conditions as they stand in the goal: no local of the function is named here
+  by_cases hb : (buffer == Ptr.null) = true
+  · simp only [if_pos hb]
+    split
+    all_goals (
+      refine OInv.bind (fun (y : Heap × BitVec 64) => Heap.Same _ y.1) _ _ (block_loop_same _ _ _ _ _ ?_) (fun _ _ => ?_)
+      · intro i s hs'
+        exact NTT_loop2_same' s (by heap_pos) hs'
+      · repeat heap_step)
+  · simp only [if_neg hb]
+    split
+    all_goals (
+      refine OInv.bind (fun (y : Heap × BitVec 64) => Heap.Same _ y.1) _ _ (block_loop_same _ _ _ _ _ ?_) (fun _ _ => ?_)
+      · intro i s hs'
+        exact NTT_loop2_same' s (by heap_pos) hs'
+      · repeat heap_step)
 macro_rules | `(tactic| same_lemmas) => `(tactic| (apply NTT_same; heap_pos))
 
 theorem INTT_same (fuel : Nat) (hp : Heap) (self : NTT_Goldilocks) (dst src : Ptr) (size ncols : BitVec 64) (buffer : Ptr)
